@@ -81,7 +81,7 @@ def relabel(decisions, side_for):
     return out
 
 
-def judge(col, b, l, rm, cls, info, sides, tr):
+def judge(col, b, l, rm, cls, info, sides, tr, hygiene=True):
     """sides: {'merge': S1, 'input': S2|None, 'output': S3|None}"""
     from .. import nbd
     from ..gen_nb import to_node
@@ -93,10 +93,12 @@ def judge(col, b, l, rm, cls, info, sides, tr):
            "output": ("use-" + sides["output"]) if sides["output"] else None, "ignore_transients": tr}
     mt = {"merge": "mergetool", "input": None, "output": None, "ignore_transients": tr}
     case = {"base": b, "local": l, "remote": rm, "class": cls, "info": info, "config": cfg}
-    nbd.hygiene()
+    if hygiene:
+        nbd.hygiene()
     try:
         merged, dec = nbd.merge_notebooks(to_node(b), to_node(l), to_node(rm), merge_args(cfg))
-        nbd.hygiene()
+        if hygiene:
+            nbd.hygiene()
         mmerged, mdec = nbd.merge_notebooks(to_node(b), to_node(l), to_node(rm), merge_args(mt))
     except Exception:
         col.count("merge_raised(C03's business)")
@@ -161,6 +163,8 @@ def judge(col, b, l, rm, cls, info, sides, tr):
 
 
 def run_shard(spec):
+    from .. import nbd
+    from nbdime.utils import Strategies
     from ..gen_nb import NBGen
     from ..workloads import valid_triple
     col = Collector(ID)
@@ -178,9 +182,20 @@ def run_shard(spec):
         cls, b, l, rm, info, waste = valid_triple(gen, cls=CONFLICT_CLASSES[k % len(CONFLICT_CLASSES)], plain_eol=True)
         if cls is None:
             continue
+        if k % 7 == 3:
+            # an earlier request of the same process FAILED inside the line merge and was caught (a server answers 500 and
+            # goes on): the documented `fail` strategy raises there
+            try:
+                nbd.mg.decide_merge({"s": "a\nb\nc\n"}, {"s": "a\nB\nc\n"}, {"s": "a\nbb\nc\n"}, Strategies({"/s": "fail", "/s/*": "fail"}))
+                col.inconc("the `fail` strategy did not raise: the caught-failure prelude observed nothing")
+            except RuntimeError:
+                col.count("earlier_merge_failed_and_was_caught")
         # transients ignored or not: drawn per triple (NOT from k's parity, which is tied to the class by the round robin)
         tr1 = r.random() < 0.5
+        hyg = k % 7 != 3        # after a caught failure the process state is NOT tidied up by the harness
         for s in S:
-            judge(col, b, l, rm, cls, info, {"merge": s, "input": None, "output": None}, tr=tr1)
-        judge(col, b, l, rm, cls, info, {"merge": r.choice(S), "input": r.choice(S + [None]), "output": r.choice(S + [None])}, tr=r.random() < 0.5)
+            judge(col, b, l, rm, cls, info, {"merge": s, "input": None, "output": None}, tr=tr1, hygiene=hyg)
+        judge(col, b, l, rm, cls, info, {"merge": r.choice(S), "input": r.choice(S + [None]), "output": r.choice(S + [None])}, tr=r.random() < 0.5, hygiene=hyg)
+        if not hyg:
+            nbd.hygiene()
     return col.result()
